@@ -19,3 +19,7 @@ impl AtomicU64 {
         ensures r.v == v
     { AtomicU64 { v } }
 }
+//   CS1b std::path::PathBuf::new()  is the empty path (no component).  Not used by the real constructors; present so that a
+//        variant that pre-fills a path-keyed map / the workspace root is REFUTED, not undecided.
+pub assume_specification[ PathBuf::new ]() -> (r: PathBuf)
+    ensures pbv(&r) == Seq::<Seq<char>>::empty();
